@@ -3,7 +3,7 @@ PLAN = {
     "level": "proof",
     "manifest": {
         "technique": "Verus (z3) on drive_connection (+ would_block/interrupted) extracted verbatim, with the non-blocking socket write as an ASSUMED contract over a ghost 'bytes accepted so far' view (frame-integrity clause only)",
-        "text": "Only the per-client frame-integrity clause is claimed, at the one function boundary where it lives: for every state of (parked remainder, queue), every socket behaviour (any partial write length, WouldBlock, EINTR, errors) and any number of loop iterations, drive_connection conserves `bytes accepted by the socket ++ parked remainder ++ queued frames`: no byte of a frame is lost, duplicated or reordered, so what a slow client receives stays a prefix of the concatenation of whole frames. ",
+        "text": "Only the per-client frame-integrity clause is claimed, at the one function boundary where it lives: for every state of (parked remainder, queue), every socket behaviour (any partial write length, WouldBlock, EINTR, errors) and any number of loop iterations, drive_connection conserves `bytes accepted by the socket ++ parked remainder ++ queued frames`: no byte of a frame is lost, duplicated or reordered, so what a slow client receives stays a prefix of the concatenation of whole frames; and the droppable queue only loses frames from its front and never receives the remainder of a half-written frame (that stays parked in wbuf, out of drop-oldest's reach).",
         "note": "ASSUMED: std::io::Write::write on a non-blocking mio TcpStream accepts a prefix of the buffer or fails without accepting anything; bytes::Bytes::split_off as documented; vstd VecDeque specs. NOT decided (no function boundary a contract can name: all inside the mio event loop run_transport): which frames are queued for which client, drop-oldest, metadata-first ordering, client accounting (increment/decrement_clients), behaviour for buffer_size None, delivery to every client. Termination of the retry recursion is not proved.",
     },
     "min_obligations": {"quick": 3, "thorough": 3},
